@@ -1,6 +1,7 @@
 package avltree
 
 import (
+	"github.com/emirpasic/gods/v2/containers"
 	vl "github.com/emirpasic/gods/v2/zzvlib"
 	v "github.com/emirpasic/gods/v2/zzvsup"
 )
@@ -340,4 +341,50 @@ func VHIter() {
 		rk, rv = r.Key, r.Value
 	}
 	vl.IterCheck(op, pos, xk, ok, r != nil, rk, rv, int(it.position), VPost(&t.Root, nil, 0))
+}
+
+// VGSmall builds a tree by the library's own Put of n <= N arbitrary pairs (every insertion order and every
+// coincidence of keys is a solver choice).
+func VGSmall() *Tree[int, int] {
+	n := v.Split(v.IntIn("n", 0, v.CfgOr("N", 3)), 0, 16)
+	t := NewWith[int, int](vl.Cmp)
+	for i := 0; i < n; i++ {
+		t.Put(v.Int("k"), v.Int("x"))
+	}
+	return t
+}
+
+// VHIterSmall: all ten iterator calls incl. NextTo/PrevTo with an arbitrary (uninterpreted) predicate, against the
+// cursor model over Keys()/Values().
+func VHIterSmall() {
+	t := VGSmall()
+	keys, vals := t.Keys(), t.Values()
+	containers.VKeyIterStep(func() containers.IteratorWithKey[int, int] { return t.Iterator() }, keys, vals, t)
+}
+
+// VHKeysValues: Keys()/Values() list every pair exactly once, ascending, position aligned, and agree with Size() (C01, C02, C15).
+func VHKeysValues() {
+	t := VGSmall()
+	VInv(t)
+	v.BeginOp(true, t)
+	keys, vals := t.Keys(), t.Values()
+	v.EndOp()
+	v.Assert(len(keys) == t.Size(), "C15,C01:len-keys-is-size")
+	v.Assert(len(vals) == t.Size(), "C15,C01:len-values-is-size")
+	for i := 1; i < len(keys); i++ {
+		v.Assert(vl.Less(keys[i-1], keys[i]), "C02,C01:keys-strictly-ascending")
+	}
+	if len(keys) == len(vals) {
+		for i := range keys {
+			x, ok := t.Get(keys[i])
+			v.Assert(v.And(ok, x == vals[i]), "C01:values-position-aligned")
+		}
+	}
+	q := v.Int("q")
+	_, found := t.Get(q)
+	listed := false
+	for _, k := range keys {
+		listed = v.Or(listed, vl.Equiv(k, q))
+	}
+	v.Assert(found == listed, "C01:keys-lists-exactly-the-live-keys")
 }
